@@ -24,8 +24,8 @@ CONSTANTS Menu,        \* set of item ids this configuration may use
 
 NoRat  == <<0, 0>>
 NoName == "NONE"
-BaseTypes == {"A", "B", "M"}
-BaseUnits == {"a", "b", "p", "q"}
+BaseTypes == {"A", "B", "M", "D"}
+BaseUnits == {"a", "b", "p", "q", "d"}
 ZeroVec == [u \in BaseUnits |-> 0]
 ZeroDim == [t \in BaseTypes |-> 0]
 UnitVec(s) == [u \in BaseUnits |-> IF u = s THEN 1 ELSE 0]
@@ -40,10 +40,12 @@ DAdd(v, w, k) == [t \in BaseTypes |-> v[t] + k * w[t]]
 (* non-string symbol, ref = "GEN" for "let the library generate the        *)
 (* reference symbol".                                                       *)
 (***************************************************************************)
+\* (for a base type the field f holds its quantum, NoRat = none)
 It(id, act, name, def, ref, typ, sym, f, of, items, n) ==
     [id |-> id, act |-> act, name |-> name, def |-> def, ref |-> ref, typ |-> typ,
      sym |-> sym, f |-> f, of |-> of, items |-> items, n |-> n]
 TBase(id, name, ref)          == It(id, "base", name, <<>>, ref, NoName, NoName, NoRat, NoName, <<>>, 0)
+TBaseQ(id, name, ref, q)      == It(id, "base", name, <<>>, ref, NoName, NoName, q, NoName, <<>>, 0)
 TDer(id, name, def, ref)      == It(id, "derived", name, def, ref, NoName, NoName, NoRat, NoName, <<>>, 0)
 UScaled(id, typ, sym, f, of)  == It(id, "scaled", NoName, <<>>, NoName, typ, sym, f, of, <<>>, 0)
 UPlain(id, typ, sym)          == It(id, "plain", NoName, <<>>, NoName, typ, sym, NoRat, NoName, <<>>, 0)
@@ -58,6 +60,10 @@ AllItems == {
   TBase("tB", "B", "b"),
   TBase("tM", "M", NoName),                                 \* no reference unit
   TBase("tA_dupsym", "A9", "a"),                            \* reference symbol already taken
+  TBaseQ("tD", "D", "d", <<3, 4>>),                         \* quantized type: amounts are multiples of 3/4 d
+  UScaled("kd", "D", "kd", <<10, 1>>, "d"),                 \* 10 d is not on the grid: the defining quantity is 9.75 d
+  UScaled("td", "D", "td", <<3, 1>>, "d"),                  \* on the grid
+  UScaled("hd", "D", "hd", <<1, 2>>, "kd"),                 \* 1/2 kd -> 6/13 kd = 4.5 d
   TDer("tAB", "AB", << <<"A", 1>>, <<"B", 1>> >>, "GEN"),
   TDer("tA2", "A2", << <<"A", 2>> >>, "a2"),
   TDer("tA2_dup", "A2x", << <<"A", 2>> >>, "sqa"),          \* dimension taken, fresh symbol
@@ -203,7 +209,7 @@ NewUnit(sym, typ, num, vec, base) == [sym |-> sym, typ |-> typ, num |-> num, vec
 DeclBase(i) ==
     /\ i.act = "base" /\ ~HasType(i.name)
     /\ IF i.ref # NoName /\ HasUnit(i.ref) THEN Reject(i)
-       ELSE /\ types' = Append(types, [name |-> i.name, ref |-> i.ref,
+       ELSE /\ types' = Append(types, [name |-> i.name, ref |-> i.ref, q |-> i.f,
                                        dim |-> [t \in BaseTypes |-> IF t = i.name THEN 1 ELSE 0]])
             /\ units' = IF i.ref = NoName THEN units
                         ELSE Append(units, NewUnit(i.ref, i.name, ROne, UnitVec(i.ref), TRUE))
@@ -219,7 +225,7 @@ DeclDerived(i) ==
                \/ (DefAllRef(i.def) /\ i.ref # NoName /\ HasUnit(RefSym(i))) \* symbol taken
             THEN Reject(i)
        ELSE LET withref == DefAllRef(i.def) /\ i.ref # NoName IN
-            /\ types' = Append(types, [name |-> i.name, ref |-> IF withref THEN RefSym(i) ELSE NoName,
+            /\ types' = Append(types, [name |-> i.name, ref |-> IF withref THEN RefSym(i) ELSE NoName, q |-> NoRat,
                                        dim |-> DefDim(i.def, 1)])
             /\ units' = IF withref
                         THEN Append(units, NewUnit(RefSym(i), i.name, ROne, RefVec(i.def, 1), FALSE))
@@ -230,10 +236,15 @@ AddUnit(i, num, vec, base) ==
     /\ units' = Append(units, NewUnit(i.sym, i.typ, num, vec, base))
     /\ UNCHANGED <<types, cache>> /\ Accept(i)
 
+\* A unit defined as factor * unit is defined by a QUANTITY, and for a type with a quantum that quantity is
+\* rounded like any other (default mode ROUND_HALF_EVEN) to the parent unit's quantum = type quantum / scale.
+DefiningAmount(i) ==
+    LET tq == TypeByName(i.typ).q  p == UnitBySym(i.of)
+    IN  IF tq = NoRat THEN i.f ELSE RoundTo(i.f, RDiv(tq, p.num), "ROUND_HALF_EVEN")
 NewScaled(i) ==
     /\ i.act = "scaled" /\ HasType(i.typ) /\ HasUnit(i.of)
     /\ IF ~ValidSym(i.sym) \/ HasUnit(i.sym) \/ UnitBySym(i.of).typ # i.typ THEN Reject(i)
-       ELSE AddUnit(i, RMul(i.f, UnitBySym(i.of).num), UnitBySym(i.of).vec, FALSE)
+       ELSE AddUnit(i, RMul(DefiningAmount(i), UnitBySym(i.of).num), UnitBySym(i.of).vec, FALSE)
 
 NewPlain(i) ==
     /\ i.act = "plain" /\ HasType(i.typ)
